@@ -1293,6 +1293,23 @@ Proof.
       destruct (tbl_lookup (committed s) (i_id (get_inst s Par x))) as [r|]; [|discriminate]. exists r. auto. }
     destruct (jx_so_sync_update s x J Hgd) as [H _].
     destruct (so_sync_update cfg Par x s) as [[v|e] s']; cbn; exact H.
+  - (* pickle: a parent-side instance is accepted; a lazyUpdate instance writes its queue first *)
+    unfold handle, bind, gets. cbv beta iota. destruct (nth h (slots s) None) as [[sd x]|] eqn:E; [|discriminate].
+    inversion Hs; subst sd. unfold ret at 1. cbv beta iota. cbn [fst snd].
+    cbn [step_ok is_sync_update] in Hg. rewrite E in Hg.
+    assert (Hp : JX [] (snd (so_pickle cfg Par x s))).
+    { unfold so_pickle. cbn [per_conn]. unfold bind, gets. cbv beta iota.
+      destruct (lazy cfg) eqn:El; cbn [andb]; [|exact J].
+      destruct (dirty (get_inst s Par x)) eqn:Hd; [|exact J].
+      assert (Hgd : dirty (get_inst s Par x) = true -> pending s = None ->
+                    others_blank s x /\
+                    exists r, tbl_lookup (committed s) (i_id (get_inst s Par x)) = Some r /\ fitsb (i_pending (get_inst s Par x)) r = true).
+      { intros _ Ep. rewrite Ep in Hg. cbn in Hg.
+        apply andb_true_iff in Hg. destruct Hg as [H1 H2]. split; [apply others_blankb_ok; exact H1|].
+        destruct (tbl_lookup (committed s) (i_id (get_inst s Par x))) as [r|]; [|discriminate]. exists r. auto. }
+      destruct (jx_so_sync_update s x J Hgd) as [H _].
+      destruct (so_sync_update cfg Par x s) as [[v|e] s']; cbn; exact H. }
+    destruct (so_pickle cfg Par x s) as [[v|e] s']; cbn; exact Hp.
   - (* drop *) unfold bind, modify, ret. cbn [fst snd].
     eapply JX_transfer; [exact J|apply J|reflexivity|apply J|].
     intros o' Ha _. left. split; [|reflexivity]. apply alive_iff in Ha. apply alive_iff. cbn in Ha.
